@@ -458,6 +458,71 @@ func PairFieldCases() []*Case {
 	return out
 }
 
+// MixedLanguageCases: hand-written proto3 files and j5s files referring to one
+// another (same package and across packages), in every container.
+func MixedLanguageCases() []*Case {
+	var out []*Case
+	for _, dir := range []string{"j5s-uses-proto", "proto-uses-j5s", "j5s-uses-proto-other-package", "both-ways"} {
+		for _, kind := range []string{"object", "enum"} {
+			for _, cont := range []string{"plain", "array", "map"} {
+				wrap := func(t *Type) *Type {
+					switch cont {
+					case "array":
+						return ArrayOf(t)
+					case "map":
+						return MapOf(t)
+					}
+					return t
+				}
+				mk := func(name string) *Decl {
+					if kind == "enum" {
+						return enumD(name, "ONE", "TWO")
+					}
+					return obj(name, fld("name", T(TString)), fld("count", T(TInt32)))
+				}
+				var files []*File
+				switch dir {
+				case "j5s-uses-proto":
+					pf := &File{Dir: "t/v1", Name: "plain", IsProto: true}
+					target := mk("Plain")
+					pf.Add(target)
+					jf := file("t/v1", "a")
+					jf.Add(obj("User", fld("ref", wrap(RefTo(target, ""))), fld("tail", T(TString))))
+					files = []*File{jf, pf}
+				case "j5s-uses-proto-other-package":
+					pf := &File{Dir: "other/v1", Name: "plain", IsProto: true}
+					target := mk("Plain")
+					pf.Add(target)
+					jf := file("t/v1", "a")
+					jf.Imports = []Import{{Pkg: "other.v1"}}
+					jf.Add(obj("User", fld("ref", wrap(RefTo(target, "other"))), fld("tail", T(TString))))
+					files = []*File{jf, pf}
+				case "proto-uses-j5s":
+					jf := file("t/v1", "a")
+					target := mk("Target")
+					jf.Add(target)
+					pf := &File{Dir: "t/v1", Name: "plain", IsProto: true, ProtoImports: []string{"t/v1/a.j5s.proto"}}
+					pf.Add(obj("Back", fld("ref", wrap(RefTo(target, ""))), fld("tail", T(TString))))
+					files = []*File{jf, pf}
+				case "both-ways":
+					// proto type used by j5s (file a), whose object is used by another proto file
+					pf := &File{Dir: "t/v1", Name: "plain", IsProto: true}
+					target := mk("Plain")
+					pf.Add(target)
+					jf := file("t/v1", "a")
+					user := obj("User", fld("ref", wrap(RefTo(target, ""))))
+					jf.Add(user)
+					qf := &File{Dir: "t/v1", Name: "zback", IsProto: true, ProtoImports: []string{"t/v1/a.j5s.proto"}}
+					qf.Add(obj("Back", fld("user", RefTo(user, ""))))
+					files = []*File{jf, pf, qf}
+				}
+				out = append(out, &Case{ID: fmt.Sprintf("mixed-language:%s:%s:%s", dir, kind, cont), Family: "mixed-language", Coord: "mixed-language|" + dir + "|" + kind, P: &Program{Files: files}})
+			}
+		}
+	}
+	return out
+}
+
 // AllContractCases: the families whose expected contract the reference compiler knows.
 func AllContractCases(thorough bool) []*Case {
 	var out []*Case
@@ -469,6 +534,7 @@ func AllContractCases(thorough bool) []*Case {
 	out = append(out, NestingCases()...)
 	out = append(out, EnumCases()...)
 	out = append(out, ReferenceCases()...)
+	out = append(out, MixedLanguageCases()...)
 	out = append(out, ServiceCases()...)
 	out = append(out, TopicCases()...)
 	out = append(out, EntityCases(thorough)...)
